@@ -19,6 +19,12 @@ bool w_sv_lt(cp a, size_t an, cp b, size_t bn) { return SV(a, an) < SV(b, bn); }
 bool w_sv_gt(cp a, size_t an, cp b, size_t bn) { return SV(a, an) > SV(b, bn); }
 bool w_sv_le(cp a, size_t an, cp b, size_t bn) { return SV(a, an) <= SV(b, bn); }
 bool w_sv_ge(cp a, size_t an, cp b, size_t bn) { return SV(a, an) >= SV(b, bn); }
+// mixed relational operators (free functions): op 0 == 1 != 2 < 3 > 4 <= 5 >= ; dir 0: view OP other, dir 1: other OP view
+#define MIXSWITCH(L, R) switch (op) { case 0: return (L) == (R); case 1: return (L) != (R); case 2: return (L) < (R); case 3: return (L) > (R); case 4: return (L) <= (R); default: return (L) >= (R); }
+bool w_sv_mix_str(int op, int dir, cp a, size_t an, cp b, size_t bn)
+{ std::string s(b, bn); SV v(a, an); if (dir == 0) { MIXSWITCH(v, s) } else { MIXSWITCH(s, v) } }
+bool w_sv_mix_cstr(int op, int dir, cp a, size_t an, cp b)
+{ SV v(a, an); if (dir == 0) { MIXSWITCH(v, b) } else { MIXSWITCH(b, v) } }
 bool w_sv_starts_with(cp a, size_t an, cp b, size_t bn) { return SV(a, an).starts_with(SV(b, bn)); }
 bool w_sv_starts_with_c(cp a, size_t an, char c) { return SV(a, an).starts_with(c); }
 bool w_sv_ends_with(cp a, size_t an, cp b, size_t bn) { return SV(a, an).ends_with(SV(b, bn)); }
